@@ -3,7 +3,7 @@ from pyvc.verify import Post, Case, Equiv, NativeFacts
 from contracts import common, C02
 
 PROPERTY = 'C01'
-REF_MODULES = ['ref_t', 'h_path', 'ref_auto']
+REF_MODULES = ['ref_t', 'h_path', 'ref_auto', 'ref_extra', 'ref_core']
 config = C02.config
 
 
@@ -34,6 +34,8 @@ def contracts():
         ('tuple->_get_sequence_item', "get handler of tuple is _get_sequence_item", lambda f: reg(f, tuple) is f.native('core', '_get_sequence_item')),
         ('object->getattr', "get handler of object is getattr", lambda f: reg(f, object) is getattr),
     ], func='core.TargetRegistry._register_default_types'))
+    from contracts import extra
+    cs += common.shared(extra, ['core.Path.from_text'])
     return cs
 
 
